@@ -321,11 +321,20 @@ func setupNrfCert() {
 func mkToken(kind string) string {
 	claims := jwt.MapClaims{"iss": "nrf", "sub": "smf", "aud": "CHF", "scope": "nchf-convergedcharging nchf-offlineonlycharging nchf-spendinglimitcontrol",
 		"exp": time.Now().Add(time.Hour).Unix()}
+	kind = strings.TrimSuffix(kind, "+nocert")
 	switch kind {
 	case "none":
 		return ""
 	case "garbage":
 		return "garbage"
+	case "basic":
+		return "Basic dXNlcjpwYXNz"
+	case "token-scheme":
+		return "Token abc"
+	case "bearer-lower":
+		return "bearer abc.def.ghi"
+	case "three-words":
+		return "Bearer abc def"
 	case "bearer-garbage":
 		return "Bearer abc.def.ghi"
 	case "alg-none":
@@ -348,7 +357,9 @@ func mkToken(kind string) string {
 	return ""
 }
 
-var tokenKinds = []string{"none", "garbage", "bearer-garbage", "alg-none", "hs256", "wrong-key"}
+// "+nocert": the NRF made OAuth2 mandatory but no NRF certificate is configured (nrfCertPem unset): still 401
+var tokenKinds = []string{"none", "garbage", "bearer-garbage", "alg-none", "hs256", "wrong-key", "basic", "token-scheme", "bearer-lower", "three-words",
+	"none+nocert", "hs256+nocert", "wrong-key+nocert"}
 
 func genAuth(o genOpts, w *bufio.Writer) {
 	startEnv()
@@ -391,6 +402,9 @@ func runAuth(line string, t []string) string {
 	self := chf_context.GetSelf()
 	self.OAuth2Required = true
 	self.NrfCertPem = nrfCertPem
+	if strings.HasSuffix(t[4], "+nocert") {
+		self.NrfCertPem = ""
+	}
 	pb, _ := unhex(t[3])
 	path := string(pb)
 	// instantiate path parameters
